@@ -5,6 +5,7 @@ import (
 	"context"
 	"crypto/cipher"
 	"crypto/rand"
+	"encoding/binary"
 	"io"
 	mrand "math/rand/v2"
 	"net"
@@ -380,7 +381,12 @@ func (s *StreamServer) HandleStream(rawRW netio.Conn, logger *zap.Logger) (req n
 	}
 
 	// Add request salt to pool.
-	if !s.saltPool.Add(now, extendedSalt) {
+	//
+	// Timestamps are validated with whole-second granularity, so this request stays acceptable
+	// until the end of second timestamp+MaxEpochDiff, which can be up to a second later than
+	// now+ReplayWindowDuration. Keep the salt until then, or a replay could slip through.
+	timestampValidUntil := time.Unix(int64(binary.BigEndian.Uint64(plaintext[1:1+8]))+MaxEpochDiff+1, 0)
+	if !s.saltPool.AddUntil(now, extendedSalt, timestampValidUntil) {
 		return req, ErrRepeatedSalt
 	}
 
